@@ -309,15 +309,21 @@ def run_sequences(ctx, env, st, n):
 
 # ------------------------------------------------------------------ real kills inside the cache write
 
-def cache_file(root):
-    return os.path.join(root, "fetch-root", ".sloc-guard", "remote-configs", sha256_hex(URL) + ".toml")
+def fetch_root(root):
+    """The project root the harness fetches under (scratch root of one harness process)."""
+    return os.path.join(root, "fetch-root")
 
 
 def read_state(root):
-    p = cache_file(root)
-    v = fs_state(p)
-    if v is None:
+    """The cache below the harness's project root, found by scanning: None | (mtime, text) | (mtime, bytes, "G") |
+    (mtime, "", "D"); more than one entry is a state of its own."""
+    ents = cache_entries(fetch_root(root))
+    if not ents:
         return None
+    if len(ents) > 1:
+        return (0, "%d entries" % len(ents), "MULTI")
+    p = ents[0]
+    v = fs_state(p)
     m = int(os.stat(p).st_mtime)
     if v == ("D",):
         return (m, "", "D")
@@ -361,7 +367,7 @@ def run_crashes(ctx, env, st):
                 stt = read_state(root)
                 prior = row[2]
                 if stt is not None and (prior is None or stt[0] != prior[0]):
-                    os.utime(cache_file(root), (row[1], row[1]))      # written by the killed run: simulated clock
+                    os.utime(cache_entries(fetch_root(root))[0], (row[1], row[1]))      # written by the killed run: simulated clock
                     stt = (row[1],) + stt[1:]
                 tag = "crash:" + cp + (":killed" if crashed else ":not-reached")
                 st["hist"][tag] = st["hist"].get(tag, 0) + 1
@@ -446,7 +452,7 @@ def run_cli_pins(ctx, env, st):
             else:
                 leaf = 'extends = "%s"\n' % url + ('extends_sha256 = "%s"\n' % pin if pin is not None else "")
             sb.write("cfg/leaf.toml", leaf)
-            cp = sb.write(".sloc-guard/remote-configs/%s.toml" % sha256_hex(url), body)
+            cp = prime_cache(env, sb.proj, url, body)      # the entry is created by the real fetch path and found by scanning
             rc, out, err = sb.run(env["cli"], ["--color", "never", "--extends-policy", "offline", "config", "show", "--format", "json", "-c", "cfg/leaf.toml"])
             st["evals"] += 1
             st["spawns"] += 1
@@ -462,8 +468,8 @@ def run_cli_pins(ctx, env, st):
                     what = "unparsable config show output"
             elif diag not in err:
                 what = "exit 2 without the diagnostic %r" % diag
-            if open(cp).read() != body:
-                what = (what or "") + " ; cache file changed"
+            if [fs_state(e) for e in cache_entries(sb.proj)] != [body]:
+                what = (what or "") + " ; cache changed: %r" % [fs_state(e) for e in cache_entries(sb.proj)]
             if what:
                 st["fails"].append({"level": "cli-pin", "leaf.toml": leaf, "cached_body": body, "what": what, "impl": {"rc": rc, "stderr": err[-400:]}})
             else:
@@ -583,11 +589,14 @@ def run_real_server(ctx, env, st):
         for (init, runs, cmd) in scen:
             with Sandbox("sgv-c18-http-") as sb:
                 url = "http://127.0.0.1:%d/base.toml" % stub.port
-                cpath = os.path.join(sb.proj, ".sloc-guard", "remote-configs", sha256_hex(url) + ".toml")
                 c0 = None
                 if init:
-                    os.makedirs(os.path.dirname(cpath), exist_ok=True)
+                    # the entry is created by a priming run of the real fetch path, located by scanning, then given
+                    # the wanted kind / content / age in place
+                    sb.write(".sloc-guard.toml", "")
+                    cpath = prime_cache(env, sb.proj, url, "# priming body\n")
                     kind = init[2] if len(init) > 2 else None
+                    os.remove(cpath)
                     if kind == "D":
                         os.mkdir(cpath)
                     else:
@@ -597,13 +606,19 @@ def run_real_server(ctx, env, st):
                         t = os.stat(cpath).st_mtime - 7200
                         os.utime(cpath, (t, t))
                     c0 = (N0 - (10 if init[0] == "fresh" else 7200),) + tuple(init[1:])
+
+                def cache_now():
+                    ents = cache_entries(sb.proj)
+                    if len(ents) > 1:
+                        return ("MULTI", len(ents))
+                    return fs_state(ents[0]) if ents else None
                 steps, answers = [], []
                 cur = c0
                 for k, (policy, pin, code) in enumerate(runs):
                     sb.write(".sloc-guard.toml", 'extends = "%s"\n' % url + ('extends_sha256 = "%s"\n' % pin if pin is not None else ""))
                     stub.status = code
                     before_req = stub.requests
-                    before = fs_state(cpath)
+                    before = cache_now()
                     rc, out, err = sb.run(env["cli"], ["--color", "never", "--extends-policy", policy] + HTTP_CMDS[cmd],
                                           env={"NO_PROXY": "127.0.0.1", "no_proxy": "127.0.0.1", "RAYON_NUM_THREADS": "1"})
                     st["spawns"] += 1
@@ -612,7 +627,7 @@ def run_real_server(ctx, env, st):
                     st["hist"][tag] = st["hist"].get(tag, 0) + 1
                     if isinstance(before, tuple):
                         st["hist"]["http:unreadable-entry:" + policy] = st["hist"].get("http:unreadable-entry:" + policy, 0) + 1
-                    after = fs_state(cpath)
+                    after = cache_now()
                     nreq = stub.requests - before_req
                     ml = None
                     if rc == 0 and cmd == "show":
